@@ -24,7 +24,7 @@ theorem parseIntB_of_ge (b : Nat) (c : Char) (r : Text) (h : 48 ≤ c.toNat) :
 theorem isDigitB8_digitChar (d : Nat) (h : d < 8) : isDigitB 8 (digitChar d) = true := by
   simp [isDigitB, digitChar_toNat d (by omega)]; omega
 
-theorem parseIntB_oct4 (n : Nat) (h : n < 512) : parseIntB 8 (oct4 n) = some (Int.ofNat n) := by
+theorem parseIntB_oct4 (n : Nat) (h : n < 4096) : parseIntB 8 (oct4 n) = some (Int.ofNat n) := by
   unfold oct4
   rw [parseIntB_of_ge 8 _ _ (by rw [digitChar_toNat _ (by omega)]; omega)]
   have e : digitsToNatB 8 [digitChar (n / 512 % 8), digitChar (n / 64 % 8), digitChar (n / 8 % 8), digitChar (n % 8)] = n := by
@@ -68,7 +68,7 @@ def int64 (i : Int) : Bool := decide (-(2 ^ 63) ≤ i) && decide (i < 2 ^ 63)
 /-- the text of an `M:` / `a:` line after the tag -/
 def permText (u g : Int) (n : Nat) : Text := intToDec u ++ ':' :: (intToDec g ++ ':' :: oct4 n)
 
-theorem parsePerms_permText (u g : Int) (n : Nat) (hu : int64 u = true) (hg : int64 g = true) (hn : n < 512) :
+theorem parsePerms_permText (u g : Int) (n : Nat) (hu : int64 u = true) (hg : int64 g = true) (hn : n < 4096) :
     parsePerms (permText u g n) = some (u, g, Int.ofNat n) := by
   simp only [int64, Bool.and_eq_true, decide_eq_true_eq] at hu hg
   unfold parsePerms permText
@@ -92,17 +92,17 @@ theorem permText_safe (u g : Int) (n : Nat) : lineSafe (permText u g n) = true :
   · subst h; exact ⟨by decide, by decide⟩
   · exact digit_safe c (oct4_chars n c h)
 
-theorem emod512 (m : Int) : ∃ n : Nat, n < 512 ∧ m.emod 512 = Int.ofNat n ∧ (m.emod 512).toNat = n := by
-  have h1 : 0 ≤ m.emod 512 := Int.emod_nonneg m (by decide)
-  have h2 : m.emod 512 < 512 := Int.emod_lt_of_pos m (by decide)
-  refine ⟨(m.emod 512).toNat, by omega, ?_, rfl⟩
+theorem emodPerm (m : Int) : ∃ n : Nat, n < 4096 ∧ m.emod 4096 = Int.ofNat n ∧ (m.emod 4096).toNat = n := by
+  have h1 : 0 ≤ m.emod 4096 := Int.emod_nonneg m (by decide)
+  have h2 : m.emod 4096 < 4096 := Int.emod_lt_of_pos m (by decide)
+  refine ⟨(m.emod 4096).toNat, by omega, ?_, rfl⟩
   simp only [Int.ofNat_eq_natCast]; omega
 
 /-! ## what comes back of a file record -/
 
-/-- what the installed db carries of a header: name, dir / non-dir, permission bits (`& 0o777`: F16d),
-owner; the checksum is written but never read (F16c) -/
-def fileProj (f : FileRec) : FileRec := { f with mode := f.mode.emod 512, csum := [] }
+/-- what the installed db carries of a header: name, dir / non-dir, permission bits incl. setuid / setgid /
+sticky (`& 0o7777`, F16d repaired), owner; the checksum is written but never read (F16c) -/
+def fileProj (f : FileRec) : FileRec := { f with mode := f.mode.emod 4096, csum := [] }
 
 /-- well-formed header: clean relative name free of LF / CR, owner ids in `int64`, line-safe checksum -/
 def WFFile (f : FileRec) : Bool :=
@@ -212,18 +212,18 @@ def afterRec (st : IdbState) (f : FileRec) : IdbState :=
   else ⟨st.pkgs, st.cur, st.files ++ [fileProj f], st.lastDir, some (fileProj f)⟩
 
 theorem fileProj_dir (f : FileRec) (hd : f.isDir = true) :
-    fileProj f = ⟨f.name, true, f.mode.emod 512, f.uid, f.gid, []⟩ := by
+    fileProj f = ⟨f.name, true, f.mode.emod 4096, f.uid, f.gid, []⟩ := by
   cases f; simp_all [fileProj]
 
 theorem fileProj_file (f : FileRec) (hd : f.isDir = false) :
-    fileProj f = ⟨f.name, false, f.mode.emod 512, f.uid, f.gid, []⟩ := by
+    fileProj f = ⟨f.name, false, f.mode.emod 4096, f.uid, f.gid, []⟩ := by
   cases f; simp_all [fileProj]
 
 theorem idbFold_dirRec (c : Codec) (cs : List Case) (g : Bool) (hcs : FileCases cs) (f : FileRec)
     (st : IdbState) (ls rest : List Text) (hd : f.isDir = true) (hl : fileLines c f = .ok ls) (hw : WFFileP f) :
     idbFold c cs g st (ls ++ rest) = idbFold c cs g (afterRec st f) rest := by
   obtain ⟨pk, q, fs, ld, lf⟩ := st
-  obtain ⟨n, hn, he, hn'⟩ := emod512 f.mode
+  obtain ⟨n, hn, he, hn'⟩ := emodPerm f.mode
   unfold fileLines at hl
   simp only [hd, if_true, Res.ok.injEq] at hl
   subst hl
@@ -236,7 +236,7 @@ theorem idbFold_dirRec (c : Codec) (cs : List Case) (g : Bool) (hcs : FileCases 
       (by rw [hn']; exact parsePerms_permText f.uid f.gid n hw.uid hw.gid hn)]
     simp only [Res.bind, setAt_last, he]
   · next hcond =>
-    have h1 : f.mode.emod 512 = 0o755 := by omega
+    have h1 : f.mode.emod 4096 = 0o755 := by omega
     have h2 : f.uid = 0 := by omega
     have h3 : f.gid = 0 := by omega
     simp only [List.nil_append, h1, h2, h3]
@@ -258,7 +258,7 @@ theorem fileLines_file (c : Codec) (f : FileRec) (ls : List Text) (hd : f.isDir 
     (hl : fileLines c f = .ok ls) :
     ∃ zs, (∀ z ∈ zs, ∃ v, z = 'Z' :: ':' :: v) ∧
       ls = (('R' :: ':' :: pathBase f.name) ::
-        (if f.mode.emod 512 ≠ 0o644 ∨ f.uid ≠ 0 ∨ f.gid ≠ 0 then [permLine 'a' f] else [])) ++ zs := by
+        (if f.mode.emod 4096 ≠ 0o644 ∨ f.uid ≠ 0 ∨ f.gid ≠ 0 then [permLine 'a' f] else [])) ++ zs := by
   unfold fileLines at hl
   simp only [hd, Bool.false_eq_true, if_false] at hl
   split at hl
@@ -274,7 +274,7 @@ theorem idbFold_fileRec (c : Codec) (cs : List Case) (g : Bool) (hcs : FileCases
     (hdir : dirOK st.lastDir f) :
     idbFold c cs g st (ls ++ rest) = idbFold c cs g (afterRec st f) rest := by
   obtain ⟨pk, q, fs, ld, lf⟩ := st
-  obtain ⟨n, hn, he, hn'⟩ := emod512 f.mode
+  obtain ⟨n, hn, he, hn'⟩ := emodPerm f.mode
   obtain ⟨zs, hzs, rfl⟩ := fileLines_file c f ls hd hl
   have hname : fullName ld (pathBase f.name) = f.name := by
     unfold fullName
@@ -285,7 +285,7 @@ theorem idbFold_fileRec (c : Codec) (cs : List Case) (g : Bool) (hcs : FileCases
       | some p => obtain ⟨i, d⟩ := p; exact sanitizeJoin_dir_base d.name f.name hw.clean h.1 h.2
   simp only [afterRec, hd, Bool.false_eq_true, if_false, fileProj_file f hd, List.cons_append, List.append_assoc,
     idbFold_cons, step_R c cs g hcs, Res.bind, hname]
-  by_cases hcond : f.mode.emod 512 ≠ 0o644 ∨ f.uid ≠ 0 ∨ f.gid ≠ 0
+  by_cases hcond : f.mode.emod 4096 ≠ 0o644 ∨ f.uid ≠ 0 ∨ f.gid ≠ 0
   · rw [if_pos hcond]
     simp only [List.singleton_append, idbFold_cons, permLine]
     rw [step_a c cs g hcs pk q _ ld _ _ f.uid f.gid (Int.ofNat n)
@@ -293,7 +293,7 @@ theorem idbFold_fileRec (c : Codec) (cs : List Case) (g : Bool) (hcs : FileCases
     simp only [Res.bind, setAt_lastIdx, he]
     exact idbFold_Z c cs g hcs _ rest zs hzs
   · rw [if_neg hcond]
-    have h1 : f.mode.emod 512 = 0o644 := by omega
+    have h1 : f.mode.emod 4096 = 0o644 := by omega
     have h2 : f.uid = 0 := by omega
     have h3 : f.gid = 0 := by omega
     simp only [List.nil_append, h1, h2, h3]
@@ -399,7 +399,7 @@ theorem fileLines_safe (c : Codec) (hc : c.Lawful) (f : FileRec) (ls : List Text
     simp only [hd, Bool.false_eq_true, if_false] at hl
     intro l hmem
     have hhead : ∀ l ∈ (('R' :: ':' :: pathBase f.name) ::
-        (if f.mode.emod 512 ≠ 0o644 ∨ f.uid ≠ 0 ∨ f.gid ≠ 0 then [permLine 'a' f] else [])), lineSafe l = true := by
+        (if f.mode.emod 4096 ≠ 0o644 ∨ f.uid ≠ 0 ∨ f.gid ≠ 0 then [permLine 'a' f] else [])), lineSafe l = true := by
       intro l hl
       simp only [List.mem_cons] at hl
       rcases hl with h | h
